@@ -70,7 +70,11 @@ func startProc(kind string, tmo int) *proc {
 	return p
 }
 
+var ioTime time.Duration
+
 func (p *proc) send(l string) {
+	t0 := time.Now()
+	defer func() { ioTime += time.Since(t0) }()
 	if p.log != nil {
 		fmt.Fprintln(p.log, l)
 	}
@@ -252,6 +256,8 @@ func (s *Solver) CheckWith(t Term) string {
 // GetValues returns the model values (as decimal-parsable big ints in hex) for the given terms from the
 // process that answered the last Check with sat. Must be called before the stack changes.
 func (s *Solver) GetValues(ts []Term) ([]string, error) {
+	t0 := time.Now()
+	defer func() { s.Time += time.Since(t0) }()
 	p := s.last
 	out := make([]string, 0, len(ts))
 	const chunk = 256
